@@ -409,6 +409,9 @@ class Sym:
 
     def ev_Zst(self, n, st):
         if "fn" in n:
+            c = n["fn"].get("ctor")
+            if c:
+                return [(st, (VAL, ("ctor", short_adt(c["adt"]), c["variant"], c["nfields"])))]
             return [(st, (VAL, ("fnref", n["fn"]["path"], n["fn"].get("dp"))))]
         return [(st, (VAL, ("zst", n.get("ty"))))]
 
@@ -1226,6 +1229,11 @@ class Sym:
                         s2 = s3
                     res.append((s2, (VAL, v)))
             return res
+        if fval[0] == "ctor" and len(args) == fval[3]:
+            # a tuple-variant constructor used as a function value builds the same value as the constructor expression
+            if fval[1] == "Option" and fval[2] == "Some":
+                return [(st, (VAL, some(args[0])))]
+            return [(st, (VAL, ("adt", fval[1], fval[2], tuple((str(i), a) for i, a in enumerate(args)))))]
         if fval[0] == "fnref":
             tgt = self.fx.by_dp.get(fval[2])
             f = dict(path=fval[1], dp=fval[2])
